@@ -155,10 +155,15 @@ def runSteps (cfg : Cfg) : List J → Heap → List Schema → Except String (He
         | "transform" => transform cfg FUEL ((st.arrD "visitors").map visitorOfJson) s h
         | "extend" => some (extend cfg (extOfJson (st.getD "ext")) s h)
         | "replace" => replaceStep cfg (strPairs st "entries") s h
+        -- `visitor.on_schema(ss[src])` for each visitor, IN PLACE on an existing schema of the list (no clone): the schema is
+        -- replaced in the list (Props/C14_inplace.lean: `ReachI.inplace`)
+        | "inplace_on" => transformFrom cfg FUEL ((st.arrD "visitors").map visitorOfJson) (h, s)
         | _ => none
       match r with
       | none => .error "out-of-fuel-or-bad-op"
-      | some (h', s') => runSteps cfg rest h' (if st.boolD "rejected" then ss else ss ++ [s'])
+      | some (h', s') =>
+        if st.strD "op" == "inplace_on" then runSteps cfg rest h' (ss.set (st.natD "src") s')
+        else runSteps cfg rest h' (if st.boolD "rejected" then ss else ss ++ [s'])
 
 /-! ### registries -/
 
